@@ -1,6 +1,8 @@
 (* C06 - cleanup stacks of the Cb interpreter: skeleton language, Mech model, Spec.
 
-   Mech mirrors, function by function, what the pinned C++ does with its two parallel cleanup
+   Mech mirrors, function by function, what the C++ does (HEAD with the three `fix:` commits
+   52ea7be [#43], 605aa41 [#11], c388113 [#44]; the machine of the code BEFORE those commits is kept in
+   Pinned.v for the record) with its two parallel cleanup
    stacks (src/backend/interpreter/core/interpreter.h:756 defer_stacks_, :760 destructor_stacks_):
 
      cleanup.cpp            push_scope / pop_scope / push_destructor_scope / pop_destructor_scope /
@@ -111,30 +113,30 @@ Definition call_destructor (k : nat) (st : state) : state :=
 Definition run_destructors (l : list nat) (st : state) : state :=
   fold_left (fun s k => call_destructor k s) (rev l) st.
 
-(* cleanup.cpp: pop_destructor_scope - destructors of back() reversed FIRST, then pop_defer_scope *)
+(* cleanup.cpp: pop_destructor_scope - pop_defer_scope FIRST (fix 52ea7be), then the destructors of
+   back() reversed *)
 Definition pop_destructor_scope (st : state) : state :=
-  let st1 := match dts st with
-             | [] => st
-             | l :: r => run_destructors l (mk (dfs st) r (scd st) (tr st))
-             end in
-  pop_defer_scope st1.
+  let st1 := pop_defer_scope st in
+  match dts st1 with
+  | [] => st1
+  | l :: r => run_destructors l (mk (dfs st1) r (scd st1) (tr st1))
+  end.
 
 (* cleanup.cpp: pop_scope - same, then variable_manager_->pop_scope() *)
 Definition pop_scope (st : state) : state :=
   let st1 := pop_destructor_scope st in
   mk (dfs st1) (dts st1) (pred (scd st1)) (tr st1).
 
-(* cleanup.cpp: execute_pre_return_cleanup - innermost defers (level popped ONLY IF non-empty),
-   then innermost destructors (level popped ONLY IF non-empty, after they ran) *)
+(* cleanup.cpp: execute_pre_return_cleanup (fix 605aa41) - innermost defers: copied, the level is
+   CLEARED (not popped), run reversed; then innermost destructors: copied, level cleared, run reversed;
+   each half only when its list is non-empty *)
 Definition pre_return_cleanup (st : state) : state :=
   let st1 := match dfs st with
-             | ((_ :: _) as l) :: r => emit (map EDefer (rev l)) (mk r (dts st) (scd st) (tr st))
+             | ((_ :: _) as l) :: r => emit (map EDefer (rev l)) (mk ([] :: r) (dts st) (scd st) (tr st))
              | _ => st
              end in
   match dts st1 with
-  | ((_ :: _) as l) :: _ =>
-      let st2 := run_destructors l st1 in
-      mk (dfs st2) (tl (dts st2)) (scd st2) (tr st2)
+  | ((_ :: _) as l) :: r => run_destructors l (mk (dfs st1) ([] :: r) (scd st1) (tr st1))
   | _ => st1
   end.
 
@@ -195,11 +197,11 @@ Fixpoint mexec (fuel : nat) (p : prog) (it : option nat) (s : stmt) (st : state)
              | _ => compound_close (mexec_b f p it e (push_destructor_scope st))
              end
     | SLoop n b =>
-        (* control_flow_executor.cpp: push_defer_scope; iterations; pop_defer_scope - a ReturnException
-           passes through both loop executors WITHOUT the pop *)
+        (* control_flow_executor.cpp: push_defer_scope; iterations; pop_defer_scope - also in the
+           ReturnException arm of both loop executors (fix c388113) *)
         match mloop f p n 0 b (push_defer_scope st) with
         | None => None
-        | Some (ORet, st') => Some (ORet, st')
+        | Some (ORet, st') => Some (ORet, pop_defer_scope st')
         | Some (_, st') => Some (ONormal, pop_defer_scope st')
         end
     | SCall g =>
@@ -347,85 +349,3 @@ Definition srun (fuel : nat) (p : prog) : option (bool * list event) :=
   | Some (_, t, D, T) => Some (false, t)
   end.
 
-(* ------------------------------------------------------------------ the fragment on which Mech = Spec
-   (the avoidance predicate of the three known findings, as a syntactic check):
-     - no scope registers both an object and a defer directly            (#43 destructors before defers)
-     - a `return` is not preceded, in its own statement list, by an object or a defer
-                                                                          (#11 extra pop of a caller level)
-     - no `return` lexically inside a loop of the same function            (#44 stale loop defer level) *)
-Definition is_obj (s : stmt) : bool := match s with SObj _ => true | _ => false end.
-Definition is_defer (s : stmt) : bool := match s with SDefer _ => true | _ => false end.
-
-Fixpoint safe_s (inl : bool) (s : stmt) : bool :=
-  match s with
-  | SBlock b => safe_b inl false false b
-  | SIf _ t e => safe_b inl false false t && safe_b inl false false e
-  | SLoop _ b => safe_b true false false b
-  | SRet => negb inl
-  | _ => true
-  end
-with safe_b (inl so sd : bool) (b : block) : bool :=
-  match b with
-  | BNil => true
-  | BCons s r =>
-      (match s with
-       | SObj _ => negb sd
-       | SDefer _ => negb so
-       | SRet => negb so && negb sd
-       | _ => true
-       end)
-      && safe_s inl s
-      && safe_b inl (so || is_obj s) (sd || is_defer s) r
-  end.
-
-Definition safe_prog (p : prog) : bool := forallb (safe_b false false false) p.
-
-(* which of the three shapes a program contains (used by the harness to label divergences) *)
-Fixpoint has_ret_in_loop_s (inl : bool) (s : stmt) : bool :=
-  match s with
-  | SBlock b => has_ret_in_loop_b inl b
-  | SIf _ t e => has_ret_in_loop_b inl t || has_ret_in_loop_b inl e
-  | SLoop _ b => has_ret_in_loop_b true b
-  | SRet => inl
-  | _ => false
-  end
-with has_ret_in_loop_b (inl : bool) (b : block) : bool :=
-  match b with
-  | BNil => false
-  | BCons s r => has_ret_in_loop_s inl s || has_ret_in_loop_b inl r
-  end.
-
-Fixpoint has_mix_s (s : stmt) : bool :=
-  match s with
-  | SBlock b => has_mix_b false false b
-  | SIf _ t e => has_mix_b false false t || has_mix_b false false e
-  | SLoop _ b => has_mix_b false false b
-  | _ => false
-  end
-with has_mix_b (so sd : bool) (b : block) : bool :=
-  match b with
-  | BNil => false
-  | BCons s r =>
-      (match s with SObj _ => sd | SDefer _ => so | _ => false end)
-      || has_mix_s s || has_mix_b (so || is_obj s) (sd || is_defer s) r
-  end.
-
-Fixpoint has_ret_after_cleanup_s (s : stmt) : bool :=
-  match s with
-  | SBlock b => has_ret_after_cleanup_b false b
-  | SIf _ t e => has_ret_after_cleanup_b false t || has_ret_after_cleanup_b false e
-  | SLoop _ b => has_ret_after_cleanup_b false b
-  | _ => false
-  end
-with has_ret_after_cleanup_b (seen : bool) (b : block) : bool :=
-  match b with
-  | BNil => false
-  | BCons s r =>
-      (match s with SRet => seen | _ => false end)
-      || has_ret_after_cleanup_s s || has_ret_after_cleanup_b (seen || is_obj s || is_defer s) r
-  end.
-
-Definition shapes (p : prog) : bool * bool * bool :=
-  (existsb (has_ret_after_cleanup_b false) p,       (* #11 *)
-   existsb (has_mix_b false false) p,               (* #43 *)
-   existsb (has_ret_in_loop_b false) p).            (* #44 *)
